@@ -53,6 +53,9 @@ pub fn gen(seed: u64, tier: Tier) -> ScenarioSpec {
             spec.archive_edits.push(ArchiveEdit { before: rng.below(8) as u8, name, size: if rng.chance(1, 4) { 0 } else { rng.below(5000) as u32 }, pseed: rng.next_u64() });
         }
     }
+    if rng.chance(1, 4) {
+        spec.knobs.insert("prelude".into(), 3);
+    }
     if rng.chance(1, 3) {
         spec.archive_version = Some(match rng.below(8) {
             0 => [1, 255, 255],
@@ -105,6 +108,8 @@ pub fn run(spec: &ScenarioSpec, ctx: &mut Ctx) -> Result<(), Violation> {
     ctx.shape("edits", spec.archive_edits.len().min(3) as u64);
     ctx.shape("aver", spec.archive_version.map_or(0, |v| 1 + (v >= [2, 0, 0]) as u64));
     let edges = m.edges();
+    prelude(spec.knob("prelude"), spec.seed, &m, ctx);
+    ctx.shape("prelude", spec.knob("prelude") as u64);
     let ga = expect_ok(P, "slippi::read", read_slp(&m.bytes, &StreamSpec::default(), &edges, spec.opts).res)?;
     let gb = expect_ok(P, "slippi::read", read_slp(&m.bytes, &StreamSpec::default(), &edges, spec.opts).res)?;
     let has_frames = ga.frames.len() > 0;
@@ -191,8 +196,15 @@ pub fn run(spec: &ScenarioSpec, ctx: &mut Ctx) -> Result<(), Violation> {
         let mutated = rebuild(&ar, &spec.archive_edits, spec.archive_version).map_err(|e| Violation::new(P, "harness-error", "rebuild", e))?;
         ctx.fault("unknown_archive_entry", spec.archive_edits.len() as u64);
         ctx.probe_if(spec.archive_edits.iter().any(|e| e.name.len() > 100), "unknown entry with a long (GNU) name");
-        let r2 = read_slpp(&mutated, &StreamSpec::default(), false);
         let too_old = spec.archive_version.map_or(false, |v| v < [2, 0, 0]);
+        // the skip-frames option must not change what is accepted
+        match (read_slpp(&mutated, &StreamSpec::default(), true).res, too_old) {
+            (Res::Ok(_), true) => return Err(Violation::new(P, "unexpected-ok", "peppi::read(version, skip_frames)", format!("format version {:?} is below 2.0.0 but the archive was accepted with skip_frames", spec.archive_version.unwrap()))),
+            (Res::Err(e, _), false) => return Err(Violation::new(P, "unexpected-err", "peppi::read(mutated, skip_frames)", crate::report::short(&e, 120))),
+            (Res::Caught(c), _) => return Err(caught_violation(P, "peppi::read(mutated, skip_frames)", &c)),
+            _ => {}
+        }
+        let r2 = read_slpp(&mutated, &StreamSpec::default(), false);
         ctx.probe_if(too_old, "format version below the minimum");
         ctx.probe_if(spec.archive_version.map_or(false, |v| v >= [2, 0, 0]), "format version at or above the minimum");
         match (r2.res, too_old) {
